@@ -478,6 +478,21 @@ def _shapes(maxrows):
             yield list(lens)
 
 
+def int_sweep():
+    """every integer row number / column number from three lengths below to three lengths above the range (existing ones read the cell, all others are refused)"""
+    for lens in ([3, 1, 0, 2, 4], [2], [1, 1, 1], [0, 5], [4, 4, 4, 4, 4, 4, 4]):
+        n, M = len(lens), max(lens)
+        for r in range(-3 * n - 2, 3 * n + 3):
+            yield mk_case(lens, r)
+            yield mk_case(lens, r, 0, True, RECVS[(r + 3 * n + 2) % len(RECVS)])
+            yield mk_case(lens, [0, r], None, False)
+            yield mk_case(lens, np.int8(r) if -128 <= r <= 127 else np.int64(r), slice(None), True)
+        for c in range(-3 * M - 2, 3 * M + 3):
+            yield mk_case(lens, 0, c, True)
+            yield mk_case(lens, slice(None), c, True, RECVS[(c + 3 * M + 2) % len(RECVS)])
+            yield mk_case(lens, [n - 1, 0], np.int16(c), True)
+
+
 def sweep(tier):
     """all arrays with <= k rows of length 0..3 x every column slice with start, stop in {None, -5..5},
     step in {+-1, +-2, +-3} x row selectors {all, reversed, each single row as a list}"""
@@ -488,6 +503,8 @@ def sweep(tier):
         bounds = [None, -5, -3, -2, -1, 0, 1, 2, 3, 5]
     else:
         shapes = list(_shapes(3))
+    for c in int_sweep():
+        yield c
     k = 0
     for lens in shapes:
         n = len(lens)
@@ -530,6 +547,8 @@ def random_selector(rng, n, allow_oob=True):
         if hi < lo:
             return 0
         v = rng.randint(lo, hi)
+        if allow_oob and rng.random() < 0.06:
+            v = rng.choice([-n - 2, -n - 3, -2 * n, -2 * n + 1, -2 * n - 1, -3 * n, n + 1, 2 * n - 1, 2 * n, 2 * n + 1, 3 * n + 2])      # anywhere beyond the rows, not only one past them (all refused)
         if allow_oob and rng.random() < 0.03:
             v = rng.choice([2 ** 32 + v, -2 ** 32 + v, 2 ** 31 + 1])     # far out of range (must be refused under every index width)
             return rng.choice([v, np.int64(v)])
@@ -543,7 +562,7 @@ def random_selector(rng, n, allow_oob=True):
         else:
             q = [rng.randint(-n, n - 1) for _ in range(m)]
             if allow_oob and rng.random() < 0.08:
-                q[rng.randrange(m)] = rng.choice([n, -n - 1, n + 3])
+                q[rng.randrange(m)] = rng.choice([n, -n - 1, n + 3, -n - 2, -2 * n, -2 * n - 1, 2 * n, 2 * n + 1, -3 * n - 1])
         if k == "list":
             return q
         dts = ["int64", "int32", "intp", "int64", ">i8", ">i4", ">i2"] + ([">u8", ">u4", "uint16"] if all(x >= 0 for x in q) else [])     # byte-swapped index vectors too
